@@ -162,8 +162,8 @@ func (rr *DefaultRelationsResolver) NewAutoMutation() (*Mutation, S) {
 	m := t.Machine
 	var toAdd S
 
-	// check all Auto states
-	for s := range m.schema {
+	// check all Auto states, in the order of state names (deterministic)
+	for _, s := range m.stateNames {
 		if !m.schema[s].Auto {
 			continue
 		}
